@@ -116,7 +116,11 @@ CLAIMS["C09"] = dict(
          "(evaluation continues on the copy and on the original, every instance judged after every operation), transient copy.copy / pickle probes, "
          "a second model with the same names assigned other values in between, numbers as Python / numpy scalars and int / float arrays, the caller "
          "overwriting his container afterwards (the evaluations must not follow); a container written to by pygom is recorded as a side effect (tag), "
-         "only wrong evaluations are violations.",
+         "only wrong evaluations are violations.  Value coincidences: the binding theorems hold for EVERY value (the unroll is by name and unconditional); "
+         "a 'nothing changed' early exit that compares the new values in input order with `_paramValue` (declared order) drops a permuted assignment "
+         "(early_exit_input_order_counterexample), and the harness assigns values that coincide with the held ones - names written in a non-declared order "
+         "whose values read in that order are the held ones, the held values permuted, one value for several names, zeros, the same map again in another "
+         "form, partial dicts swapping values - judged by the direct oracle (value bound by name).",
     note="Trusted: Lean kernel + Mathlib; the harness (generator, printer, interpreter, the 40-line Python dict spec of the oracle). The setter variant "
          "(does a rejected assignment leave `_parameters`/`_paramValue` touched) is measured on the tree under test by a fixed probe and passed to the "
          "model; both variants are covered by theorems. Documented non-claims (stated as lemmas): a partial update on a never-set model binds the "
@@ -146,7 +150,11 @@ CLAIMS["C11"] = dict(
          "the (repaired) limit list has one entry per state, aligned with the state it was declared for (range-style declarations expanded), default (0,None), hence every "
          "state of every row respects its own declared limits. The limit list of the unrepaired tree (one entry per declared name) is proved to accept a forbidden state "
          "(legacy_limits_counterexample) and to misalign later limits. Tie: per-iteration replay of real runs (accept/reject, branch, retry), the limit list itself, and every "
-         "rejected step replayed through the public tauLeap / firstReaction with the recorded variates.",
+         "rejected step replayed through the public tauLeap / firstReaction with the recorded variates. Explicit ODE terms next to events: whatever the Poisson "
+         "counts are - all zero included - tauLeap hands x + V.n + pure(x,t)*tau to _checkJump and the leap is taken exactly when that state is within the limits "
+         "(tau_proposal_always_checked, tau_leap_success_iff; drift_only_leap_rejected is a concrete zero-event leap rejected because the drift alone leaves (0, 40)); "
+         "the harness simulates models whose drift runs into a declared lower / upper / two-sided bound (a bound exactly 0 included) with slow events, fixed and adaptive tau, "
+         "so that such leaps occur, and judges every recorded row.",
     note="Trusted: Lean kernel; harness generator/tracer. Assumed: x0 within limits; gridded tau-leap rows are numpy's linear interpolation (checked by the direct oracle only). "
          "Direct oracle: min/max of raw and gridded arrays against the declared limits (lower 0 for every undeclared state), rejected steps leave (x,t) unchanged, steps inside "
          "the limits are not rejected. /repo violates the property for range-style state declarations until proposed_fixes/C11-range-style-limits.diff is applied "
@@ -273,12 +281,22 @@ CLAIMS["C08"] = dict(
          "The harness runs histories over two interleaved instances with the same names (driver op canary2 = Canary.pstep), lets the freshly built "
          "reference evaluate before or after the instance under test (part of the case), calls every evaluator at a second point in every argument "
          "form (list / tuple / ndarray, int / float dtype, numpy scalars; reference given the same arguments) and re-compares every array returned "
-         "at the end of each round.",
+         "at the end of each round. Secondary entry points: a public alias of an evaluator (ode_T, jacobian_T, grad_T, diff_jacobian_T, grad_jacobianT, "
+         "total_transition) written as `return self.<evaluator>(state, t)` - or as a fast path that calls <evaluator>Compiled directly behind that "
+         "evaluator's OWN flag - observes exactly what the evaluator observes, in every state (alias_method_eq_primary, alias_direct_own_guard_eq_primary), "
+         "so C08 holds for histories with alias calls too (never_stale_aliases, never_stale_extracted_aliases); a fast path behind another flag "
+         "(jacobian_T while the master canary ode is alive) goes stale after [jacobian, mutator, ode, jacobian_T] (alias_wrong_guard_counterexample). How each "
+         "alias reaches the compiled object is re-extracted from the text of deterministic.py / simulate.py on every run (extracted_alias_impl_ok), and a "
+         "return / raise reachable between a definition-changing statement and trip() counts as 'not followed by trip' in the translator. The harness "
+         "evaluates through the aliases inside the histories and observes each alias as a separate observation with its own place in the order.",
     note="The Lean model (Canary.sourceCfg) describes the tree WITH proposed_fixes/C08-add-ode-trip.diff and C08-decl-setters-refresh-sp.diff applied; "
          "until they are applied ./check C08 reports a VIOLATION on /repo (add_ode, late parameter / state declarations). "
          "Trusted: Lean kernel; harness generator/replay; pymodel route replay; lambda back-end only; 'fresh model' assigns 0 to a parameter "
          "never given a value. Recompile pattern and flag dictionary are compared with the model but recorded only (tags). "
-         "DeterministicOde on its own is not covered (it has no compiler object _SC and its canary watches nothing).",
+         "DeterministicOde on its own is not covered (it has no compiler object _SC and its canary watches nothing). "
+         "total_transition raises TypeError on every call on the tree as found (keyword `time=` handed to the (state, t) closure; a freshly constructed "
+         "model raises the same, so it is tagged alias-unusable-on-a-fresh-model, not judged; proposed_fixes/C08-total-transition-keyword.diff). "
+         "The derived entry points that combine several evaluators (sensitivity, adjoint, forward-forward systems) are C13 / C20's.",
     technique="Lean 4 invariant over operation histories (induction on the op list, abstract compile semantics) + model/code correspondence + fresh-model oracle")
 CLAIMS["C17"] = dict(
     text="Proved in Lean for every trial stream (= every seed, prior, model, kernel), every N, G, q, M and every get/continue sequence: "
